@@ -9,6 +9,8 @@ structure CompDef where
   oneSite : Bool := false
   axis : V3 Float := ⟨0.0, 0.0, 1.0⟩
   groups : List (List Nat) := []
+  iexp : Nat := 6               -- distanceInv exponent
+  sw : SwParams Float := { r0 := 4.0, en := 6, ed := 12, tol := 0.0 }   -- coordNum
 
 structure GeomSt where
   pos : List (Nat × V3 Float) := []
@@ -32,7 +34,10 @@ def geomObserve (g : GeomSt) (t : List String) : GeomSt :=
       | some [x, y, z] => ⟨x, y, z⟩
       | _ => ⟨0.0, 0.0, 1.0⟩
     let d : CompDef := { kind := kind, coeff := ((get "c").map fOfTok).getD 1.0, exp := ((get "n").map nOfTok).getD 1,
-                         oneSite := (get "one") == some "1", axis := axis, groups := groups }
+                         oneSite := (get "one") == some "1", axis := axis, groups := groups,
+                         iexp := ((get "exp").map nOfTok).getD 6,
+                         sw := { r0 := ((get "r0").map fOfTok).getD 4.0, en := ((get "en").map nOfTok).getD 6,
+                                 ed := ((get "ed").map nOfTok).getD 12, tol := ((get "tol").map fOfTok).getD 0.0 } }
     { g with defs := (name, d) :: g.defs.filter (·.1 != name) }
   | _ => g
 
@@ -49,6 +54,10 @@ def compValue (g : GeomSt) (d : CompDef) : Float :=
   | "distanceXY" => distanceXY (G 0) (G 1) d.axis
   | "gyration" => gyration (G 0)
   | "angle" => angle (G 0) (G 1) (G 2)
+  | "inertia" => inertia (G 0)
+  | "inertiaZ" => inertiaZ (G 0) d.axis
+  | "distanceInv" => distanceInv (G 0) (G 1) d.iexp
+  | "coordNum" => coordNum (G 0) (G 1) d.sw
   | _ => 0.0
 
 /-- gradient of the component on each of its atoms, by group -/
@@ -61,6 +70,10 @@ def compGrad (g : GeomSt) (d : CompDef) : List (List (V3 Float)) :=
   | "distanceXY" => let r := distanceXYGrad (G 0) (G 1) d.axis; [r.1, r.2]
   | "gyration" => [gyrationGrad (G 0)]
   | "angle" => let r := angleGrad (G 0) (G 1) (G 2); [r.1, r.2.1, r.2.2]
+  | "inertia" => [inertiaGrad (G 0)]
+  | "inertiaZ" => [inertiaZGrad (G 0) d.axis]
+  | "distanceInv" => let r := distanceInvGrad (G 0) (G 1) d.iexp; [r.1, r.2]
+  | "coordNum" => let r := coordNumGrad (G 0) (G 1) d.sw; [r.1, r.2]
   | _ => []
 
 def compTF (g : GeomSt) (d : CompDef) : Float :=
